@@ -6,7 +6,10 @@ rm -rf $d; mkdir -p $d
 git -C /repo archive HEAD | tar -x -C $d; rm -rf $d/_build
 (cd $d && patch -p1 -s < /verif/seeded/$id/patch.diff) || { echo "patch failed"; rm -rf $d; exit 2; }
 cd /verif
-VERIF_REPO=$d python3 vcheck.py $check $tier 2>&1 | grep -E "key=|^C[0-9]+:" | sort | uniq -c | sort -rn | head -12
+VERIF_REPO=$d python3 vcheck.py $check $tier > $d.out 2>&1
+grep -E "key=" $d.out | sort | uniq -c | sort -rn | head -10
+grep -E "^C[0-9]+:" $d.out | tail -1 | sed 's/^/      1 /'
+rm -f $d.out
 tag=alt$(printf %s "$d" | sha256sum | cut -c1-6)
 rm -rf $d /verif/build/$tag-* /verif/build/.lock-$tag-*
 git -C /verif checkout -- evidence 2>/dev/null
